@@ -82,7 +82,7 @@ Section ConcReclaim.
     In b (live_after after live) <-> In b live /\ ~ In b (after_frees after).
   Proof.
     induction after as [|e a IH]; intros live b; cbn [live_after fold_left after_frees flat_map].
-    - tauto.
+    - cbn [In]. tauto.
     - fold (live_after a (match e with CFree c => remove Nat.eq_dec c live | _ => live end)). rewrite IH.
       fold (after_frees a). destruct e; cbn [app]; try tauto.
       split.
@@ -106,7 +106,7 @@ Section ConcReclaim.
   Lemma freed_after_in : forall after freed b, In b (freed_after after freed) <-> In b freed \/ In b (after_frees after).
   Proof.
     induction after as [|e a IH]; intros freed b; cbn [freed_after fold_left after_frees flat_map].
-    - tauto.
+    - cbn [In]. tauto.
     - fold (freed_after a (match e with CFree c => c :: freed | _ => freed end)). rewrite IH. fold (after_frees a).
       destruct e; cbn [app In]; tauto.
   Qed.
@@ -119,23 +119,203 @@ Section ConcReclaim.
     eapply Permutation_NoDup; [|exact N]. apply Permutation_middle.
   Qed.
 
+  Lemma NoDup_app_inv {A} (a b : list A) : NoDup (a ++ b) -> NoDup a /\ NoDup b /\ (forall x, In x a -> ~ In x b).
+  Proof.
+    induction a as [|x a IH]; cbn [app]; intros N.
+    - split; [constructor|]. split; [exact N|]. intros x [].
+    - inversion N as [|? ? Hx N2]; subst. destruct (IH N2) as (Na & Nb & D). split; [|split; [exact Nb|]].
+      + constructor; [|exact Na]. intros Hin. apply Hx. apply in_or_app. left. exact Hin.
+      + intros y [<-|Hy]; [intros Hb; apply Hx; apply in_or_app; right; exact Hb|apply D; exact Hy].
+  Qed.
+
   Lemma Claims_free bl bl' sl live freed next after :
     ClaimsC bl sl live freed next -> Permutation bl (after_frees after ++ bl') ->
     ClaimsC bl' sl (live_after after live) (freed_after after freed) next.
   Proof.
     intros [N L LN B K F FD] P.
     assert (N2 : NoDup (after_frees after ++ bl')) by (eapply Permutation_NoDup; eauto).
+    destruct (NoDup_app_inv _ _ N2) as (Nf & Nb & D).
+    assert (Fin : forall b, In b (after_frees after) -> In b bl).
+    { intros b Hin. eapply Permutation_in; [apply Permutation_sym; exact P|apply in_or_app; left; exact Hin]. }
     constructor; auto.
-    - apply NoDup_app_remove_l in N2. exact N2.
     - intros b. rewrite live_after_spec, L. split.
       + intros (H1 & H2). apply (Permutation_in _ P) in H1. apply in_app_or in H1 as [H1|H1]; tauto.
       + intros H1. split; [eapply Permutation_in; [apply Permutation_sym; exact P|apply in_or_app; right; exact H1]|].
-        intros H2. rewrite NoDup_app_iff in N2 || idtac.
-        (* disjointness of the two parts of a duplicate-free list *)
-        clear - N2 H1 H2. induction (after_frees after) as [|x l IH]; [destruct H2|].
-        cbn [app] in N2. inversion N2 as [|? ? Hx N3]; subst. destruct H2 as [->|H2]; [apply Hx; apply in_or_app; right; exact H1|auto].
+        intros H2. exact (D b H2 H1).
     - apply live_after_nodup. exact LN.
     - intros b Hin. apply B. eapply Permutation_in; [apply Permutation_sym; exact P|apply in_or_app; right; exact Hin].
-    - apply freed_after_nodup. apply NoDup_app_iff_local.
-  Abort.
+    - apply freed_after_nodup. clear - Nf F FD Fin L.
+      induction (after_frees after) as [|x l IH]; [exact F|]. cbn [app]. inversion Nf as [|? ? Hx Nl]; subst.
+      constructor.
+      + intros Hin. apply in_app_or in Hin as [Hin|Hin]; [contradiction|].
+        destruct (FD x Hin) as (A1 & _). apply A1. apply L. apply Fin. left. reflexivity.
+      + apply IH; [exact Nl|]. intros b Hb. apply Fin. right. exact Hb.
+    - intros b Hin. apply freed_after_in in Hin as [Hin|Hin].
+      + destruct (FD b Hin) as (A1 & A2). split; [|exact A2]. intros H. apply live_after_spec in H. tauto.
+      + split; [intros H; apply live_after_spec in H; tauto|]. apply B. apply Fin. exact Hin.
+  Qed.
+
+  (* ---- slots ---- *)
+  Lemma slot_lookup_none_keys sl p : slot_lookup sl p = None <-> ~ In p (map fst sl).
+  Proof.
+    induction sl as [|[q e] r IH]; cbn [slot_lookup map fst In]; [tauto|].
+    destruct (pos_eqb q p) eqn:E.
+    - apply pos_eqb_eq in E. subst q. split; [discriminate|intros H; contradiction H; left; reflexivity].
+    - rewrite IH. split; [intros H [->|H2]; [rewrite pos_eqb_refl in E; discriminate|auto]|intros H H2; apply H; right; exact H2].
+  Qed.
+
+  Lemma slot_remove_absent sl x : slot_lookup sl x = None -> slot_remove sl x = sl.
+  Proof.
+    induction sl as [|[q e] r IH]; cbn [slot_lookup slot_remove]; [reflexivity|].
+    destruct (pos_eqb q x); [discriminate|]. intros H. rewrite (IH H). reflexivity.
+  Qed.
+
+  Lemma slot_remove_keys sl x p : In p (map fst (slot_remove sl x)) -> In p (map fst sl) /\ p <> x.
+  Proof.
+    induction sl as [|[q e] r IH]; cbn [slot_remove map fst In]; [tauto|].
+    destruct (pos_eqb q x) eqn:E.
+    - intros H. destruct (IH H). tauto.
+    - cbn [map fst In]. intros [->|H]; [split; [left; reflexivity|intros ->; rewrite pos_eqb_refl in E; discriminate]|destruct (IH H); tauto].
+  Qed.
+
+  Lemma slot_remove_nodup sl x : NoDup (map fst sl) -> NoDup (map fst (slot_remove sl x)).
+  Proof.
+    induction sl as [|[q e] r IH]; cbn [slot_remove map fst]; [auto|]. intros N. inversion N as [|? ? Hq Nr]; subst.
+    destruct (pos_eqb q x); [auto|]. cbn [map fst]. constructor; [|auto]. intros H. apply slot_remove_keys in H. tauto.
+  Qed.
+
+  Definition elem_blocks (e : selem) : list nat := match e with ENode b => [b] | EToken _ => [] end.
+
+  Lemma slot_blocks_remove sl x e : NoDup (map fst sl) -> slot_lookup sl x = Some e ->
+    Permutation (slot_blocks sl) (elem_blocks e ++ slot_blocks (slot_remove sl x)).
+  Proof.
+    induction sl as [|[q e'] r IH]; cbn [slot_lookup slot_remove map fst]; [discriminate|].
+    intros N L. inversion N as [|? ? Hq Nr]; subst. unfold slot_blocks. cbn [flat_map snd]. fold (slot_blocks r).
+    destruct (pos_eqb q x) eqn:E.
+    - injection L as ->. apply pos_eqb_eq in E. subst q.
+      rewrite (slot_remove_absent r x); [apply Permutation_refl|]. apply slot_lookup_none_keys. exact Hq.
+    - cbn [flat_map snd]. fold (slot_blocks (slot_remove r x)). fold (elem_blocks e').
+      eapply Permutation_trans; [apply Permutation_app_head; apply (IH Nr L)|]. apply Permutation_app_swap_app.
+  Qed.
+
+  Lemma slot_lookup_remove_same sl x : slot_lookup (slot_remove sl x) x = None.
+  Proof.
+    induction sl as [|[q e] r IH]; cbn [slot_remove slot_lookup]; [reflexivity|].
+    destruct (pos_eqb q x) eqn:E; [exact IH|]. cbn [slot_lookup]. rewrite E. exact IH.
+  Qed.
+
+  Lemma slot_lookup_remove_other sl x p : p <> x -> slot_lookup (slot_remove sl x) p = slot_lookup sl p.
+  Proof.
+    intros Hne. induction sl as [|[q e] r IH]; cbn [slot_remove slot_lookup]; [reflexivity|].
+    destruct (pos_eqb q x) eqn:E.
+    - apply pos_eqb_eq in E. subst q. destruct (pos_eqb x p) eqn:E2; [apply pos_eqb_eq in E2; congruence|exact IH].
+    - cbn [slot_lookup]. rewrite IH. reflexivity.
+  Qed.
+
+  Lemma cont_blocks_tear_node b p : cont_blocks (tear_node g b p) = [].
+  Proof. unfold tear_node. induction (seq 0 (length (kids g p))) as [|i r IH]; cbn; [reflexivity|exact IH]. Qed.
+
+  Lemma perm_move {A} (a b x : list A) c : Permutation (a ++ b ++ c :: x) (c :: a ++ b ++ x).
+  Proof. rewrite !app_assoc. apply Permutation_sym, Permutation_middle. Qed.
+
+  Lemma perm_front {A} (a b f x : list A) : Permutation (a ++ b ++ f ++ x) (f ++ a ++ b ++ x).
+  Proof.
+    rewrite !app_assoc. apply Permutation_app_tail. rewrite <- (app_assoc f a b). apply Permutation_app_comm.
+  Qed.
+
+  (* ---- every step preserves the claims ---- *)
+  Theorem exec_Claims s tid t m rest :
+    nth_error (c_threads s) tid = Some t -> t_cont t = m :: rest ->
+    (c_torn s = true -> is_dropreg m = false) ->      (* no handle is left to drop once the teardown runs *)
+    Claims s -> Claims (fst (exec_mop g s tid t m rest)).
+  Proof.
+    intros Ht Hc TornOk C. destruct (thr_blocks_set _ _ _ Ht) as (R & P1 & P2).
+    assert (K := cl_keys _ _ _ _ _ C).
+    destruct t as [regs prog cont out]. cbn [t_cont] in Hc, P1. subst cont.
+    unfold Claims, blocks in *.
+    (* the blocks of the state after the step, with the stepping thread's share in front *)
+    assert (PB : forall torn sl t', Permutation (blocks_of torn sl (set_nth (c_threads s) tid t'))
+                                               ((if torn then [] else [0%nat]) ++ slot_blocks sl ++ cont_blocks (t_cont t') ++ R)).
+    { intros torn sl t'. unfold blocks_of. do 2 apply Permutation_app_head. apply P2. }
+    assert (PA : Permutation (blocks_of (c_torn s) (c_slots s) (c_threads s))
+                             ((if c_torn s then [] else [0%nat]) ++ slot_blocks (c_slots s) ++ cont_blocks (m :: rest) ++ R)).
+    { unfold blocks_of. do 2 apply Permutation_app_head. exact P1. }
+    destruct m as [p i first keep|p i cand keep|delta after|h|r|r report|tb p i|p o]; cbn [exec_mop].
+    - (* MRead *)
+      destruct (slot_lookup (c_slots s) (i :: p)) as [e|] eqn:L; [|destruct (child_is_node g p i)];
+        cbn [fst upd_thread c_torn c_slots c_live c_freed c_next c_threads].
+      + eapply Claims_same; [exact C| |exact K].
+        eapply Permutation_trans; [apply PB|]. eapply Permutation_trans; [|apply Permutation_sym; exact PA].
+        destruct keep; apply Permutation_refl.
+      + eapply Claims_alloc; [exact C|].
+        eapply Permutation_trans; [apply PB|]. cbn [t_cont cont_blocks flat_map mop_blocks app].
+        eapply Permutation_trans; [|apply perm_skip; apply Permutation_sym; exact PA].
+        cbn [cont_blocks flat_map mop_blocks app]. apply perm_move.
+      + eapply Claims_same; [exact C| |exact K].
+        eapply Permutation_trans; [apply PB|]. eapply Permutation_trans; [|apply Permutation_sym; exact PA]. apply Permutation_refl.
+    - (* MWrite *)
+      destruct (slot_lookup (c_slots s) (i :: p)) as [e|] eqn:L;
+        cbn [fst upd_thread c_torn c_slots c_live c_freed c_next c_threads].
+      + (* loser: the candidate moves into the queued free *)
+        eapply Claims_same; [exact C| |exact K].
+        eapply Permutation_trans; [apply PB|]. eapply Permutation_trans; [|apply Permutation_sym; exact PA].
+        cbn [t_cont]. rewrite cont_blocks_app. destruct cand; apply Permutation_refl.
+      + (* winner: the candidate moves into the slot *)
+        eapply Claims_same; [exact C| |].
+        * eapply Permutation_trans; [apply PB|]. eapply Permutation_trans; [|apply Permutation_sym; exact PA].
+          unfold slot_blocks at 1. cbn [flat_map snd t_cont cont_blocks mop_blocks app]. fold (slot_blocks (c_slots s)).
+          destruct cand as [c|]; cbn [app]; [|apply Permutation_refl].
+          apply Permutation_app_head. apply (Permutation_middle (slot_blocks (c_slots s))).
+        * cbn [map fst]. constructor; [apply slot_lookup_none_keys; exact L|exact K].
+    - (* MRmwInternal *)
+      cbn [fst upd_thread c_torn c_slots c_live c_freed c_next c_threads].
+      eapply Claims_free; [exact C|].
+      eapply Permutation_trans; [exact PA|]. eapply Permutation_trans; [|apply Permutation_app_head; apply Permutation_sym; apply PB].
+      cbn [t_cont cont_blocks flat_map mop_blocks]. fold (cont_blocks rest).
+      rewrite <- app_assoc. apply perm_front.
+    - (* MCloneResult *)
+      cbn [fst upd_thread c_torn c_slots c_live c_freed c_next c_threads].
+      eapply Claims_same; [exact C| |exact K].
+      eapply Permutation_trans; [apply PB|]. eapply Permutation_trans; [|apply Permutation_sym; exact PA]. apply Permutation_refl.
+    - (* MCloneReg *)
+      destruct (reg_of _ r); cbn [fst upd_thread c_torn c_slots c_live c_freed c_next c_threads];
+        (eapply Claims_same; [exact C| |exact K]);
+        (eapply Permutation_trans; [apply PB|]; eapply Permutation_trans; [|apply Permutation_sym; exact PA]; apply Permutation_refl).
+    - (* MDropReg *)
+      destruct (reg_of _ r); [destruct (Z.eqb (c_rc s) 1)|];
+        cbn [fst upd_thread c_torn c_slots c_live c_freed c_next c_threads].
+      + (* the teardown starts: the root's block is claimed by the queued free from now on *)
+        destruct (c_torn s) eqn:NT; [specialize (TornOk eq_refl); discriminate|].
+        eapply Claims_same; [exact C| |exact K].
+        eapply Permutation_trans; [apply PB|]. eapply Permutation_trans; [|apply Permutation_sym; exact PA].
+        cbn [t_cont t_regs t_prog t_out]. rewrite !cont_blocks_app, cont_blocks_tear_node.
+        cbn [cont_blocks flat_map mop_blocks after_frees app].
+        apply Permutation_sym. apply (Permutation_middle (slot_blocks (c_slots s))).
+      + eapply Claims_same; [exact C| |exact K].
+        eapply Permutation_trans; [apply PB|]. eapply Permutation_trans; [|apply Permutation_sym; exact PA]. apply Permutation_refl.
+      + eapply Claims_same; [exact C| |exact K].
+        eapply Permutation_trans; [apply PB|]. eapply Permutation_trans; [|apply Permutation_sym; exact PA]. apply Permutation_refl.
+    - (* MTearSlot *)
+      destruct (negb (c_torn s)) eqn:NT; cbn [fst upd_thread c_torn c_slots c_live c_freed c_next c_threads].
+      + eapply Claims_same; [exact C| |exact K].
+        eapply Permutation_trans; [apply PB|]. eapply Permutation_trans; [|apply Permutation_sym; exact PA]. apply Permutation_refl.
+      + unfold tear_slot_events.
+        destruct (slot_lookup (c_slots s) (i :: p)) as [[b|pb]|] eqn:L;
+          cbn [fst upd_thread c_torn c_slots c_live c_freed c_next c_threads];
+          (eapply Claims_same; [exact C| |apply slot_remove_nodup; exact K]);
+          (eapply Permutation_trans; [apply PB|]; eapply Permutation_trans; [|apply Permutation_sym; exact PA]);
+          cbn [t_cont]; rewrite ?cont_blocks_app, ?cont_blocks_tear_node;
+          cbn [cont_blocks flat_map mop_blocks after_frees app]; apply Permutation_app_head.
+        * (* a node: its block moves from the slot into the queued free *)
+          eapply Permutation_trans; [|apply Permutation_app_tail; apply Permutation_sym; apply (slot_blocks_remove _ _ _ K L)].
+          cbn [elem_blocks app]. apply Permutation_sym. apply (Permutation_middle (slot_blocks (slot_remove (c_slots s) (i :: p)))).
+        * eapply Permutation_trans; [|apply Permutation_app_tail; apply Permutation_sym; apply (slot_blocks_remove _ _ _ K L)].
+          apply Permutation_refl.
+        * rewrite (slot_remove_absent _ _ L). apply Permutation_refl.
+    - (* MData *)
+      destruct (match o with KSet _ v => _ | KTrySet _ v => _ | KGet _ => _ | KClear _ => _ | _ => _ end) as [[[d' dr] res] w].
+      cbn [fst upd_thread c_torn c_slots c_live c_freed c_next c_threads].
+      eapply Claims_same; [exact C| |exact K].
+      eapply Permutation_trans; [apply PB|]. eapply Permutation_trans; [|apply Permutation_sym; exact PA]. apply Permutation_refl.
+  Qed.
 End ConcReclaim.
